@@ -153,7 +153,7 @@ fn conf_case(proto: Proto) -> BoxedStrategy<ConfCase> {
 fn all_subs() -> Vec<Conformance> {
   let mut v = vec![];
   for proto in Proto::ALL {
-    for kind in ["sweep", "random"] {
+    for kind in ["sweep", "random", "dense"] {
       v.push(Conformance { proto, kind });
     }
   }
@@ -187,6 +187,10 @@ pub fn run(ctx: &Ctx) -> EvidenceMeta {
           v
         })
         .collect();
+      jobs.push(Box::new(move || ctx.enumerate(s, cases.into_iter(), true)));
+    } else if s.kind == "dense" {
+      let max = match s.proto.cost() { 40 => ctx.n(150, 1100), 8 => ctx.n(300, 1100), _ => ctx.n(1100, 4200) };
+      let cases: Vec<ConfCase> = dense_sweep(s.proto, Layer::Core, max).into_iter().enumerate().map(|(i, rt)| ConfCase { rt, wire_nonce: (0..32).map(|j| (j * 5 + i) as u8).collect() }).collect();
       jobs.push(Box::new(move || ctx.enumerate(s, cases.into_iter(), true)));
     } else {
       let n = (ctx.n(12_000, 120_000) / s.proto.cost().min(20)).max(300);
